@@ -73,6 +73,16 @@ Theorem xml_bytes_faithful :
 Proof. exact xml_bytes_faithful_proof. Qed.
 Print Assumptions xml_bytes_faithful.
 
+(* C02 the buffer as a whole: at every moment it is the input plus the terminator, except that some
+   TAB/LF/CR bytes already read have become spaces; nothing at or beyond the cursor has been written. *)
+Theorem xml_buffer_rewrites :
+  forall d s, reach d s ->
+    len (lbuf (xr s)) = len d + 1 /\
+    (forall i, getz (lbuf (xr s)) i = getz d i \/ (ws3 (getz d i) /\ getz (lbuf (xr s)) i = 32)) /\
+    (forall i, lpos (xr s) <= i -> getz (lbuf (xr s)) i = getz d i).
+Proof. exact xml_buffer_rewrites_proof. Qed.
+Print Assumptions xml_buffer_rewrites.
+
 (* C02 sub-slices: Text() and AttrVal() lie inside the token just returned; AttrVal() is nil after
    every token that is not an Attribute. *)
 Theorem xml_subslices :
